@@ -215,45 +215,85 @@ func runC11(c *an.Ctx) {
 	}
 	c.Min("O3 stores to cached", nO3, 2)
 	if enc := p.Func(md, "ProtoNode", "EncodeProtobuf"); c.Need(enc != nil, "ProtoNode.EncodeProtobuf") {
-		recv := enc.Params[0]
-		// re-encode preceded by cached = Undef
-		for _, st := range an.StoresToField(enc, fEncoded, recv) {
-			if an.IsNilConst(st.Val) {
-				continue
-			}
-			var resets []ssa.Instruction
-			for _, r := range an.StoresToField(enc, fCached, recv) {
-				if an.IsZeroValue(r.Val, cidUndef) {
-					resets = append(resets, r)
+		// The encode unit: EncodeProtobuf plus the unexported methods it calls on its own receiver
+		// (two levels), so that splitting it into refresh helpers does not orphan the rules.
+		unit := c11EncodeUnit(enc)
+		isDefinedEdge := func(g *ssa.Function) an.EdgeSet {
+			return an.CallEdges(g, an.M("github.com/ipfs/go-cid", "Cid", "Defined"), -1, func(v ssa.Value) bool {
+				if u, ok := v.(*ssa.UnOp); ok && u.Op == token.MUL {
+					f, _ := an.FieldOf(u.X)
+					return f == fCached
+				}
+				f, _ := an.FieldOf(v)
+				return f == fCached
+			}, true)
+		}
+		sumStores := func(g *ssa.Function) map[ssa.Instruction]bool {
+			blocked := map[ssa.Instruction]bool{}
+			for _, st := range an.StoresToField(g, fCached, g.Params[0]) {
+				if _, ok := an.IsCallTo(st.Val, an.M("github.com/ipfs/go-cid", "Builder", "Sum")); ok {
+					blocked[st] = true
 				}
 			}
-			c.Check(an.MustPrecede(enc, st, resets), "O3", "R-DOM", an.FuncName(enc), "reencode<=cached-reset", st.Pos(),
-				"every re-encode is preceded by cached=Undef", "encoded is recomputed without resetting the cached CID first: stale CID survives a re-encode")
+			return blocked
 		}
-		// nil-error return implies cache defined: reached via Defined()==true edge or via the Sum store
-		defEdges := an.CallEdges(enc, an.M("github.com/ipfs/go-cid", "Cid", "Defined"), -1, func(v ssa.Value) bool {
-			if u, ok := v.(*ssa.UnOp); ok && u.Op == token.MUL {
-				f, _ := an.FieldOf(u.X)
-				return f == fCached
+		okReturn := func(r *ssa.Return) bool {
+			n := len(r.Results)
+			return n > 0 && an.IsErrorType(r.Results[n-1].Type()) && an.IsNilConst(r.Results[n-1])
+		}
+		// a helper of the unit "establishes the cache" when none of its nil-error returns can be reached
+		// without a Defined()==true edge on cached or the Sum store
+		establishes := map[*ssa.Function]bool{}
+		for _, g := range unit[1:] {
+			all, any := true, false
+			for _, r := range an.Returns(g) {
+				if okReturn(r) {
+					any = true
+					if an.Reaches(g, nil, r, isDefinedEdge(g), sumStores(g)) {
+						all = false
+					}
+				}
 			}
-			f, _ := an.FieldOf(v)
-			return f == fCached
-		}, true)
-		blocked := map[ssa.Instruction]bool{}
-		for _, st := range an.StoresToField(enc, fCached, recv) {
-			if _, ok := an.IsCallTo(st.Val, an.M("github.com/ipfs/go-cid", "Builder", "Sum")); ok {
-				blocked[st] = true
+			establishes[g] = all && any
+		}
+		okNil := false
+		for _, g := range unit {
+			recv := g.Params[0]
+			// re-encode preceded by cached = Undef
+			for _, st := range an.StoresToField(g, fEncoded, recv) {
+				if an.IsNilConst(st.Val) {
+					continue
+				}
+				var resets []ssa.Instruction
+				for _, r := range an.StoresToField(g, fCached, recv) {
+					if an.IsZeroValue(r.Val, cidUndef) {
+						resets = append(resets, r)
+					}
+				}
+				c.Check(an.MustPrecede(g, st, resets), "O3", "R-DOM", an.FuncName(enc), "reencode<=cached-reset", st.Pos(),
+					"every re-encode is preceded by cached=Undef", "encoded is recomputed without resetting the cached CID first: stale CID survives a re-encode")
+			}
+			if len(an.NilEdges(g, fieldLoads(g, fEncoded, recv), true)) > 0 {
+				okNil = true
+			}
+		}
+		// nil-error return implies cache defined: reached via Defined()==true edge, via the Sum store, or
+		// via the nil-error edge of a helper that establishes the cache
+		recv := enc.Params[0]
+		defEdges := isDefinedEdge(enc)
+		for _, call := range an.AllCalls(enc) {
+			if callee := call.Common().StaticCallee(); callee != nil && establishes[callee] && an.SameObj(an.Recv(call), recv) {
+				defEdges = defEdges.Union(an.NilEdges(enc, an.ErrResult(call), true))
 			}
 		}
 		for _, r := range an.Returns(enc) {
 			if len(r.Results) == 2 && an.IsNilConst(r.Results[1]) {
-				c.Check(!an.Reaches(enc, nil, r, defEdges, blocked), "O3", "R-DOM", an.FuncName(enc), "return-ok=>cached-defined", r.Pos(),
+				c.Check(!an.Reaches(enc, nil, r, defEdges, sumStores(enc)), "O3", "R-DOM", an.FuncName(enc), "return-ok=>cached-defined", r.Pos(),
 					"success return reached only with a defined or freshly computed cached CID",
 					"EncodeProtobuf can return success without (re)computing an undefined cached CID")
 			}
 		}
-		// the re-encode condition must include encoded==nil and linksDirty
-		okNil := len(an.NilEdges(enc, fieldLoads(enc, fEncoded, recv), true)) > 0
+		// the re-encode condition must include encoded==nil
 		c.Check(okNil, "O3", "R-DOM", an.FuncName(enc), "reencode-when-encoded-nil", enc.Pos(), "re-encode is triggered by encoded==nil", "EncodeProtobuf no longer tests encoded==nil: invalidation by mutators has no effect")
 	}
 	if cidf := p.Func(md, "ProtoNode", "Cid"); c.Need(cidf != nil, "ProtoNode.Cid") {
@@ -579,4 +619,35 @@ func c11Codec(fns []*ssa.Function) (enc, dec *ssa.Function) {
 		}
 	}
 	return
+}
+
+// c11EncodeUnit returns fn followed by the unexported methods it calls on its own receiver (two levels).
+func c11EncodeUnit(fn *ssa.Function) []*ssa.Function {
+	unit := []*ssa.Function{fn}
+	seen := map[*ssa.Function]bool{fn: true}
+	for depth, frontier := 0, []*ssa.Function{fn}; depth < 2; depth++ {
+		var next []*ssa.Function
+		for _, g := range frontier {
+			if len(g.Params) == 0 {
+				continue
+			}
+			for _, call := range an.AllCalls(g) {
+				callee := call.Common().StaticCallee()
+				if callee == nil || seen[callee] || callee.Pkg != fn.Pkg || callee.Signature.Recv() == nil || len(callee.Blocks) == 0 {
+					continue
+				}
+				if o := callee.Object(); o == nil || o.Exported() {
+					continue
+				}
+				if r := an.Recv(call); r == nil || !an.SameObj(r, g.Params[0]) {
+					continue
+				}
+				seen[callee] = true
+				unit = append(unit, callee)
+				next = append(next, callee)
+			}
+		}
+		frontier = next
+	}
+	return unit
 }
